@@ -235,6 +235,19 @@ def main(argv):
         for cid, inp, impl, model, spec in rows:
             n += 1
             cfg = inp.split(" ", 1)[0]
+            if cfg == "session":
+                # a whole session of cmd/zygo: phases observed (kind of interpreter per phase) vs Model/Cmdline.v session
+                n_cmd += 1
+                argv = inp.split(" :: zygo ", 1)[-1]
+                if model and model != "rejected" and not model.startswith("BAD"):
+                    kinds = {x.split(":")[1] for x in model.split(",") if ":" in x}
+                    cmd_model.setdefault(argv, "sandboxed" if kinds == {"sandboxed"} else "open")
+                obs_kinds = {x.split(":")[1] for x in impl.split(",") if ":" in x}
+                if spec == "sandboxed" and (obs_kinds - {"sandboxed"} or not obs_kinds):
+                    cmd_fail.append({"command_line": argv, "tokens": inp.split(" :: ", 1)[0][8:], "observed_phases": impl, "model": model, "specification": "every phase sandboxed"})
+                elif model is not None and impl != model:
+                    corr_fail.append({"input": inp, "observed_phases": impl, "model_of_the_session": model})
+                continue
             if cfg == "cmdline":
                 # the command line of cmd/zygo: observed kind of interpreter vs Model/Cmdline.v
                 n_cmd += 1
@@ -261,7 +274,7 @@ def main(argv):
                 m = meta.get(cid, {})
                 prop_fail.append({"id": cid, "cfg": cfg, "input": inp, "observed_effects": sorted(iset), "predicted_by_tables": raw_pred,
                                   "entry": m.get("entry", ""), "kind": m.get("kind", ""), "form": m.get("form", ""), "pre": m.get("pre"), "script": m.get("script"),
-                                  "abs": m.get("abs"), "argv": m.get("argv"), "detail": m.get("detail"), "class": m.get("class")})
+                                  "abs": m.get("abs"), "argv": m.get("argv"), "script_file": m.get("script_file"), "detail": m.get("detail"), "class": m.get("class")})
             elif mset is not None and not iset <= mset:
                 corr_fail.append({"input": inp, "observed_effects": sorted(iset), "predicted_by_tables": raw_pred})
     # the harness labels the canary runs of a command line "bin" (sandboxed) or "full" (control): that label
@@ -282,10 +295,10 @@ def main(argv):
             key = (f["cfg"], "cmdline")          # one report per kind of command-line failure, smallest first
         viol_by_entry.setdefault(key, []).append(f)
     for key, fs in sorted(viol_by_entry.items())[:8]:
-        fs.sort(key=lambda f: (len(f.get("argv") or []), len(f["pre"] or []), f["form"] != "direct", len(f["script"] or "")))
+        fs.sort(key=lambda f: (len(f.get("argv") or []), len(f.get("script_file") or ""), len(f["pre"] or []), f["form"] != "direct", len(f["script"] or "")))
         f = fs[0]
         c.violation({"kind": "a script in a sandboxed interpreter reached the outside world" + (" (cmd/zygo run with a sandbox flag: zygo %s)" % " ".join(f["argv"]) if f.get("argv") else ""),
-                     "argv": f.get("argv"), "cfg": f["cfg"], "entry": f["entry"], "pre": f["pre"] or [],
+                     "argv": f.get("argv"), "script_file": f.get("script_file"), "cfg": f["cfg"], "entry": f["entry"], "pre": f["pre"] or [],
                      "script": f["script"], "abs": f["abs"], "observed_effects": f["observed_effects"], "predicted_by_tables": f["predicted_by_tables"],
                      "detail": f["detail"], "how_it_ended": f["class"], "similar_cases": len(fs),
                      "replay": "bin/check C08 --replay <this file>  (placeholders @SECRET@ @OUT@ @EXISTING@ @PWNED@ @DIR@ are canary paths created by the harness)"})
